@@ -7,7 +7,7 @@
     (Timer), nextline/utils/queue.py (wait_until_queue_empty), nextline/spawned/__init__.py
     (set_queues, main).  Statements the relay does not depend on (logging, asserts, typing,
     bookkeeping of the result object) have no constructor: the translator drops them. *)
-From Coq Require Import List Bool Arith.
+From Coq Require Import List Bool Arith String.
 Import ListNotations.
 
 (** the hooks of the main process the relay awaits *)
@@ -58,6 +58,7 @@ Inductive stmt :=
 | SSetRunningNone                  (* context.running_process = None *)
 | SCallStartRun                    (* await _on_start_run(context, context.running_process) *)
 | SCallEndRun                      (* await _on_end_run(context, context.exited_process) *)
+| SAssert                          (* assert <call-free test>: passes or raises *)
 | SRaise                           (* raise ... *)
 | SSleepInterval.                  (* time.sleep(interval) *)
 
@@ -80,6 +81,14 @@ Inductive tstmt :=
 
 (** ---- nextline/spawned/__init__.py: main *)
 Inductive cstmt :=
+| CAssert                    (* assert <call-free test> *)
 | CRunScript                 (* ret = run(run_arg, _queue_in, _queue_out): the script runs, every event is `_queue_out.put(event)` *)
 | CWaitQueueEmpty (t : tmo)  (* wait_until_queue_empty(queue=_queue_out[, timeout=<t>]) *)
 | CReturn.                   (* return ret *)
+
+(** ---- nextline/plugin/plugins/session/monitor.py: the body of one `case events.X():` of
+    OnEvent.on_event_in_process (every statement of a case is translated) *)
+Inductive dstmt :=
+| DOpenAdd                   (* context.open_prompts.add((event.trace_no, event.prompt_no)) *)
+| DOpenDiscard               (* context.open_prompts.discard((event.trace_no, event.prompt_no)) *)
+| DAwaitHook (name : string). (* await ahook.<name>(context=context, event=event) *)
